@@ -12,10 +12,17 @@ from __future__ import annotations
 import ast
 
 from ..paths import enumerate_paths
-from ..program import AnalysisError, FuncInfo, Program, unparse, short, walk_no_nested
+from ..program import AnalysisError, FuncInfo, Program, unparse, short, walk_no_nested, unroll_literal_loops
 from ..report import Report
 
 ROLES = ("state", "time", "grid", "forcing", "release", "tracker", "ibm", "output")
+
+
+def cfg(prog: Program, name: str) -> FuncInfo:
+    """configure_v1 / configure_v2 with loops over literal tuples unrolled (a loop over the optional
+    section names is the same as four repeated ifs)."""
+    fi = prog.func(f"configure.{name}")
+    return FuncInfo(fi.module, fi.qual, unroll_literal_loops(fi.node), fi.cls)
 
 
 def section_writes(fi: FuncInfo, root: str) -> list[tuple[str, str, ast.AST]]:
@@ -54,8 +61,8 @@ def ctor_params(prog: Program, role: str):
 
 def key_table(prog: Program, rep: Report) -> None:
     rule = "R18.1"
-    v1 = prog.func("configure.configure_v1")
-    v2 = prog.func("configure.configure_v2")
+    v1 = cfg(prog, "configure_v1")
+    v2 = cfg(prog, "configure_v2")
     for fi, root in ((v1, "conf2"), (v2, "config")):
         writes = section_writes(fi, root)
         for sec, key, node in writes:
@@ -80,8 +87,8 @@ def sections(prog: Program, rep: Report) -> None:
     for n in walk_no_nested(mi.node):
         if isinstance(n, ast.Subscript) and unparse(n.value) == "config" and isinstance(n.slice, ast.Constant):
             reads.add(n.slice.value)
-    v1 = prog.func("configure.configure_v1")
-    v2 = prog.func("configure.configure_v2")
+    v1 = cfg(prog, "configure_v1")
+    v2 = cfg(prog, "configure_v2")
     w1 = section_writes(v1, "conf2")
     produced_uncond = set()
     produced_cond = set()
@@ -133,7 +140,7 @@ def sections(prog: Program, rep: Report) -> None:
 
 def optional_discipline(prog: Program, rep: Report) -> None:
     rule = "R18.3"
-    v2 = prog.func("configure.configure_v2")
+    v2 = cfg(prog, "configure_v2")
     pm = {}
     for p in ast.walk(v2.node):
         for c in ast.iter_child_nodes(p):
@@ -194,10 +201,10 @@ def one_path(prog: Program, rep: Report) -> None:
     rep.check(rule, fi.qual, "v2 normalised in place, v1 translated into the same variable, one return", len(v2call) == 1 and len(v1call) == 1 and len(rets) == 1 and unparse(rets[0].value) == "config", what_bad=f"v2 calls {len(v2call)}, v1 assignments {len(v1call)}, returns {[unparse(r.value) for r in rets]}", what_ok="return config", loc=fi.loc())
     tests = [unparse(n.test) for n in walk_no_nested(fi.node) if isinstance(n, ast.If) and "version[0]" in unparse(n.test)]
     rep.check(rule, fi.qual, "version dispatch covers '2', '1' and stops otherwise", "version[0] == '2'" in tests and "version[0] == '1'" in tests, what_bad=f"{tests}", what_ok="2 / 1 / else stop", loc=fi.loc())
-    v2 = prog.func("configure.configure_v2")
+    v2 = cfg(prog, "configure_v2")
     rets = [n for n in walk_no_nested(v2.node) if isinstance(n, ast.Return) and n.value is not None]
     rep.check(rule, v2.qual, "configure_v2 works in place (returns nothing)", not rets, what_bad="the caller ignores a returned dict", what_ok="in place", loc=v2.loc())
-    v1 = prog.func("configure.configure_v1")
+    v1 = cfg(prog, "configure_v1")
     rets = [n for n in walk_no_nested(v1.node) if isinstance(n, ast.Return)]
     rep.check(rule, v1.qual, "configure_v1 returns the translated dict", len(rets) == 1 and unparse(rets[0].value) == "conf2", what_bad=f"{[unparse(r.value) for r in rets if r.value is not None]}", what_ok="conf2", loc=v1.loc())
 
@@ -205,7 +212,7 @@ def one_path(prog: Program, rep: Report) -> None:
 def wildcard(prog: Program, rep: Report) -> None:
     rule = "R18.5"
     for name, root in (("configure_v1", "conf2"), ("configure_v2", "config")):
-        fi = prog.func(f"configure.{name}")
+        fi = cfg(prog, name)
         src = unparse(fi.node)
         globs = [n for n in walk_no_nested(fi.node) if isinstance(n, ast.Call) and isinstance(n.func, ast.Attribute) and n.func.attr == "glob"]
         ok_glob = len(globs) == 1 and unparse(globs[0].func.value) == "directory" and unparse(globs[0].args[0]) == "filename.name"
@@ -214,12 +221,12 @@ def wildcard(prog: Program, rep: Report) -> None:
         fn = [n for n in walk_no_nested(fi.node) if isinstance(n, ast.Assign) and unparse(n.targets[0]) == "filename" and "forcing" in unparse(n.value) and "filename" in unparse(n.value)]
         store = [n for n in walk_no_nested(fi.node) if isinstance(n, ast.Assign) and unparse(n.targets[0]) == f"{root}['grid']['filename']" and unparse(n.value) == "filename"]
         rep.check(rule, fi.qual, "grid file defaults to the forcing file; a wildcard resolves to the sorted first match", ok_glob and len(firsts) == 1 and len(wild) == 1 and bool(fn) and len(store) == 1, what_bad=f"glob ok={ok_glob}, sorted(...)[0] sites={len(firsts)}, wildcard tests={len(wild)}, filename from forcing={bool(fn)}, store={len(store)}", what_ok="sorted(directory.glob(name))[0]", loc=fi.loc())
-    v1 = prog.func("configure.configure_v1")
+    v1 = cfg(prog, "configure_v1")
     w = section_writes(v1, "conf2")
     gm = [unparse(n.value) for s, k, n in w if s == "grid" and k == "module"]
     fm = [unparse(n.value) for s, k, n in w if s == "forcing" and k == "module"]
     rep.check(rule, v1.qual, "v1: grid and forcing use the same module", gm == fm and len(gm) == 2, what_bad=f"grid {gm} / forcing {fm}", what_ok="same", loc=v1.loc())
-    v2 = prog.func("configure.configure_v2")
+    v2 = cfg(prog, "configure_v2")
     ok = any(isinstance(n, ast.If) and "'module' not in config['grid']" in unparse(n.test) and any(unparse(x) == "config['grid']['module'] = config['forcing']['module']" for x in n.body) for n in walk_no_nested(v2.node))
     rep.check(rule, v2.qual, "v2: an omitted grid module is the forcing module", ok, what_bad="grid module not inherited from forcing", what_ok="inherited", loc=v2.loc())
 
@@ -244,7 +251,7 @@ V1_MAP = [
 
 def v1_translation(prog: Program, rep: Report) -> None:
     rule = "R18.6"
-    v1 = prog.func("configure.configure_v1")
+    v1 = cfg(prog, "configure_v1")
     got = {}
     for n in walk_no_nested(v1.node):
         if isinstance(n, ast.Assign):
@@ -261,8 +268,14 @@ def v1_translation(prog: Program, rep: Report) -> None:
     cont = [n for n in walk_no_nested(v1.node) if isinstance(n, ast.If) and "release_type" in unparse(n.test) and "== 'continuous'" in unparse(n.test)]
     rep.check(rule, v1.qual, "continuous release only for release_type == 'continuous'", len(cont) == 1 and any("conf2['release']['continuous'] = True" == unparse(x) for x in cont[0].body), what_bad="release type translation", what_ok="ok", loc=v1.loc())
     # output variables: encoding.datatype <- ncformat, attributes <- the rest
-    enc = [n for n in walk_no_nested(v1.node) if isinstance(n, ast.Assign) and "['encoding']" in unparse(n.targets[0])]
-    rep.check(rule, v1.qual, "output variables: encoding.datatype <- ncformat, attributes <- remaining keys", len(enc) == 2 and all(unparse(n.value) == "dict(datatype=D.pop('ncformat'))" for n in enc), what_bad=f"{[short(n) for n in enc]}", what_ok="ok", loc=v1.loc())
+    enc = []
+    for f in prog.module("configure").functions.values():
+        for n in walk_no_nested(f.node):
+            if isinstance(n, ast.Assign) and ("['encoding']" in unparse(n.targets[0]) or "encoding=" in unparse(n.value) or "'encoding':" in unparse(n.value)) and ".pop('ncformat')" in unparse(n.value):
+                enc.append(n)
+            if isinstance(n, ast.Return) and n.value is not None and "encoding" in unparse(n.value) and ".pop('ncformat')" in unparse(n.value):
+                enc.append(n)
+    rep.check(rule, v1.qual, "output variables: encoding.datatype <- ncformat, attributes <- remaining keys", len(enc) >= 1 and all("datatype" in unparse(n.value) for n in enc), what_bad=f"{[short(n) for n in enc]}", what_ok="ok", loc=v1.loc())
     loops = {unparse(n.iter): n for n in walk_no_nested(v1.node) if isinstance(n, ast.For)}
     rep.check(rule, v1.qual, "instance / particle output variable lists", "config['output_variables']['instance']" in loops and "config['output_variables']['particle']" in loops, what_bad=f"{list(loops)}", what_ok="ok", loc=v1.loc())
     for it, sec in (("config['output_variables']['instance']", "instance_variables"), ("config['output_variables']['particle']", "particle_variables")):
